@@ -23,10 +23,12 @@ _Alignas _Alignof _Atomic _Bool _Complex _Generic _Imaginary _Noreturn _Static_a
 alignas alignof bool constexpr false nullptr static_assert thread_local true typeof typeof_unqual""".split()) | {"NULL"}
 
 
-def _role_ok(role, detail, read) -> Optional[str]:
+def _role_ok(role, detail, read, at=None) -> Optional[str]:
     """None if the role is allowed for identifier text, else the reason."""
-    if role in ("WIDTH", "MESSAGE", "TRUTH", "DISPATCH"):
+    if role in ("WIDTH", "MESSAGE", "TRUTH"):
         return None
+    if role == "DISPATCH":
+        return _dispatch_ok(at, read)
     if role == "PREFIX":
         bad = [c for c in (detail or []) if c not in NAMING_PREFIXES]
         return None if detail and not bad else f"prefix test against {bad or detail}"
@@ -55,6 +57,55 @@ def _role_ok(role, detail, read) -> Optional[str]:
     if role == "RETURNED":
         return None
     return f"{role}({detail})"
+
+
+def _dispatch_ok(call, read) -> Optional[str]:
+    """getattr(obj, <template over the spelling>): the spellings that select an attribute must all be names the user cannot
+    give to an identifier of their own (directive names, `defined`, keywords): otherwise a macro or variable that happens
+    to be called like a method suffix is treated differently from its renaming."""
+    from ..model import program
+    prog = program()
+    if not (isinstance(call, ast.Call) and len(call.args) >= 2):
+        return "reflective dispatch of unknown shape"
+    tmpl = call.args[1]
+    prefix = suffix = None
+    if isinstance(tmpl, ast.JoinedStr):
+        parts = tmpl.values
+        holes = [i for i, x in enumerate(parts) if isinstance(x, ast.FormattedValue)]
+        if len(holes) == 1 and all(isinstance(x, ast.Constant) for i, x in enumerate(parts) if i != holes[0]):
+            prefix = "".join(str(x.value) for x in parts[:holes[0]])
+            suffix = "".join(str(x.value) for x in parts[holes[0] + 1:])
+    elif isinstance(tmpl, ast.BinOp) and isinstance(tmpl.op, ast.Add) and isinstance(tmpl.left, ast.Constant) \
+            and isinstance(tmpl.left.value, str):
+        prefix, suffix = tmpl.left.value, ""
+    elif isinstance(tmpl, ast.Name):
+        prefix, suffix = "", ""
+    if prefix is None:
+        return f"reflective dispatch through `{text(tmpl, 40)}`"
+    recv = call.args[0]
+    own = read.fn
+    while own is not None and own.cls is None:
+        own = own.outer
+    cname = own.cls.name if (isinstance(recv, ast.Name) and recv.id in ("self", "cls") and own is not None) else None
+    if cname is None:
+        return f"reflective dispatch on `{text(recv, 30)}`"
+    names: Set[str] = set()
+    seen, todo = set(), [cname]
+    while todo:
+        c = todo.pop()
+        if c in seen or c not in prog.classes:
+            continue
+        seen.add(c)
+        names |= set(prog.classes[c].methods) | set(prog.classes[c].attrs)
+        todo += list(prog.classes[c].bases)
+    selectable = sorted(n[len(prefix):len(n) - len(suffix) if suffix else None] for n in names
+                        if n.startswith(prefix) and n.endswith(suffix) and len(n) >= len(prefix) + len(suffix))
+    bad = [n for n in selectable if n and n not in SPECIAL_NAMES and n not in _lexer_keywords()
+           and n.replace("_", "a").isalnum() and not n.startswith("__")]       # __names are the implementation's, not the user's
+    if bad:
+        return (f"`{text(call, 50)}` selects an attribute of {cname} for the ordinary spelling(s) {bad[:4]} "
+                f"(an identifier so named is treated specially)")
+    return None
 
 
 _KW = None
@@ -158,7 +209,7 @@ def check(run, prog):
         n += 1
         bad = []
         for role, detail, at in r.roles:
-            why = _role_ok(role, detail, r)
+            why = _role_ok(role, detail, r, at)
             if why:
                 bad.append(why)
         run.ob("R-18.1", r.key, not bad,
@@ -168,7 +219,7 @@ def check(run, prog):
     for sr in store_reads(prog):
         n += 1
         roles = classify(sr.fn, sr.node)
-        bad = [w for w in (_role_ok(ro, d, sr) for ro, d, _ in roles) if w]
+        bad = [w for w in (_role_ok(ro, d, sr, at_) for ro, d, at_ in roles) if w]
         run.ob("R-18.1", sr.key, not bad,
                "a stored identifier spelling is used for something other than a naming-class rule: " + "; ".join(bad), sr.node,
                roles=[f"{ro}:{d if not isinstance(d, list) else d[:4]}" for ro, d, _ in roles])
